@@ -24,3 +24,5 @@ open Pyrealb.C05
 #print axioms ne_position_clause_holds
 #print axioms neg2_position_clause_holds
 #print axioms clitic_order_clause_holds
+#print axioms Pyrealb.C05.one_finite_verb_clause_holds
+#print axioms Pyrealb.C05.placement_keeps_verbs
